@@ -1,6 +1,200 @@
 import Infretis.Model.Proto
-open Infretis.Proto
+import Infretis.Model.PathAlg
+open Infretis Infretis.Proto Infretis.PathAlg
 
-def handle (_toks : List String) : String := "bad-op"
+/-
+Line protocol of the C15 driver.
+
+  prog <op>*            replay an op program on the heap machine; answer = log | dump
+     new <ml> <t0>                         ml: '-' = None
+     sys <i> <vals>                        vals = c0 c1 <list order> vr ek vp pos vel box temp
+     app <i> <j> <k>
+     iadd <i> <j>
+     copy <i>
+     rev <i> (- | f a b c vd) <rv>         order function [a*pos + (±b)*vel + c], sign − when vel_rev
+     paste <i> <j> <ov> <ml>
+     set <i> <k> <field> <value…>
+     seti <i> <k> <x>
+     pset <i> <field> <value>
+  cls <list intf> <list ops>      ordermin / ordermax / check_interfaces
+  sp <left> <right|-> <list ops>  get_start_point
+  ep <left> <right|-> <list ops>  get_end_point
+-/
+
+def optInt? (s : String) : Option (Option Int) :=
+  if s = "-" then some none else (parseInt? s).map some
+
+def showOpt (x : Option Int) : String := match x with | none => "-" | some v => toString v
+
+def bool? (s : String) : Option Bool := if s = "1" then some true else if s = "0" then some false else none
+
+def linFn (a b c : Int) (vd : Bool) : OrderFn :=
+  { velDep := vd, calcF := fun v => [a * v.pos + (if v.velRev then -b else b) * v.vel + c] }
+
+def parseVals (toks : List String) : Option (Vals × List String) :=
+  match toks with
+  | c0 :: c1 :: rest =>
+    match parseInt? c0, parseInt? c1, takeList parseInt? rest with
+    | some c0, some c1, some (ord, vr :: ek :: vp :: pos :: vel :: box :: temp :: rest') =>
+      match bool? vr, optInt? ek, optInt? vp, parseInt? pos, parseInt? vel, parseInt? box, parseInt? temp with
+      | some vr, some ek, some vp, some pos, some vel, some box, some temp =>
+        some ({ config := (c0, c1), order := ord, velRev := vr, ekin := ek, vpot := vp,
+                pos := pos, vel := vel, box := box, temp := temp }, rest')
+      | _, _, _, _, _, _, _ => none
+    | _, _, _ => none
+  | _ => none
+
+def parseField (toks : List String) : Option (Field × List String) :=
+  match toks with
+  | "config" :: a :: b :: rest =>
+    match parseInt? a, parseInt? b with
+    | some a, some b => some (.config a b, rest)
+    | _, _ => none
+  | "order" :: rest => (takeList parseInt? rest).map (fun (o, r) => (.order o, r))
+  | "velrev" :: b :: rest => (bool? b).map (fun b => (.velRev b, rest))
+  | "ekin" :: x :: rest => (optInt? x).map (fun x => (.ekin x, rest))
+  | "vpot" :: x :: rest => (optInt? x).map (fun x => (.vpot x, rest))
+  | "pos" :: x :: rest => (parseInt? x).map (fun x => (.pos x, rest))
+  | "vel" :: x :: rest => (parseInt? x).map (fun x => (.vel x, rest))
+  | "box" :: x :: rest => (parseInt? x).map (fun x => (.box x, rest))
+  | "temp" :: x :: rest => (parseInt? x).map (fun x => (.temp x, rest))
+  | _ => none
+
+def parsePField (toks : List String) : Option (PField × List String) :=
+  match toks with
+  | "maxlen" :: x :: rest => (optInt? x).map (fun x => (.maxlen x, rest))
+  | "status" :: x :: rest => (parseInt? x).map (fun x => (.status x, rest))
+  | "generated" :: x :: rest => (optInt? x).map (fun x => (.generated x, rest))
+  | "pathnum" :: x :: rest => (optInt? x).map (fun x => (.pathNumber x, rest))
+  | "weights" :: x :: rest => (optInt? x).map (fun x => (.weights x, rest))
+  | "weight" :: x :: rest => (parseInt? x).map (fun x => (.weight x, rest))
+  | "torigin" :: x :: rest => (parseInt? x).map (fun x => (.timeOrigin x, rest))
+  | _ => none
+
+def parseOp (toks : List String) : Option (Op × List String) :=
+  match toks with
+  | "new" :: ml :: t :: rest =>
+    match optInt? ml, parseInt? t with
+    | some ml, some t => some (.new ml t, rest)
+    | _, _ => none
+  | "sys" :: i :: rest =>
+    match parseNat? i, parseVals rest with
+    | some i, some (v, rest') => some (.sys i v, rest')
+    | _, _ => none
+  | "app" :: i :: j :: k :: rest =>
+    match parseNat? i, parseNat? j, parseNat? k with
+    | some i, some j, some k => some (.app i j k, rest)
+    | _, _, _ => none
+  | "iadd" :: i :: j :: rest =>
+    match parseNat? i, parseNat? j with
+    | some i, some j => some (.iadd i j, rest)
+    | _, _ => none
+  | "copy" :: i :: rest => (parseNat? i).map (fun i => (.copy i, rest))
+  | "rev" :: i :: "-" :: rv :: rest =>
+    match parseNat? i, bool? rv with
+    | some i, some rv => some (.rev i none rv, rest)
+    | _, _ => none
+  | "rev" :: i :: "f" :: a :: b :: c :: vd :: rv :: rest =>
+    match parseNat? i, parseInt? a, parseInt? b, parseInt? c, bool? vd, bool? rv with
+    | some i, some a, some b, some c, some vd, some rv => some (.rev i (some (linFn a b c vd)) rv, rest)
+    | _, _, _, _, _, _ => none
+  | "paste" :: i :: j :: ov :: ml :: rest =>
+    match parseNat? i, parseNat? j, bool? ov, optInt? ml with
+    | some i, some j, some ov, some ml => some (.paste i j ov ml, rest)
+    | _, _, _, _ => none
+  | "set" :: i :: k :: rest =>
+    match parseNat? i, parseNat? k, parseField rest with
+    | some i, some k, some (f, rest') => some (.set i k f, rest')
+    | _, _, _ => none
+  | "seti" :: i :: k :: x :: rest =>
+    match parseNat? i, parseNat? k, parseInt? x with
+    | some i, some k, some x => some (.setItem i k x, rest)
+    | _, _, _ => none
+  | "pset" :: i :: rest =>
+    match parseNat? i, parsePField rest with
+    | some i, some (f, rest') => some (.pset i f, rest')
+    | _, _ => none
+  | _ => none
+
+partial def parseOps (toks : List String) (acc : List Op) : Option (List Op) :=
+  match toks with
+  | [] => some acc.reverse
+  | _ =>
+    match parseOp toks with
+    | none => none
+    | some (op, rest) => parseOps rest (op :: acc)
+
+/-- references in order of first appearance (paths in order, frames in order) -/
+def firstSeen (xs : List Nat) : List Nat :=
+  xs.foldl (fun acc x => if acc.contains x then acc else acc ++ [x]) []
+
+def idxIn (xs : List Nat) (x : Nat) : Nat :=
+  match xs with
+  | [] => 0
+  | y :: t => if y = x then 0 else 1 + idxIn t x
+
+def showVals (v : Vals) (oo : Nat) : String :=
+  s!"S {v.config.1} {v.config.2} o{oo} {showList toString v.order} {if v.velRev then 1 else 0} " ++
+  s!"{showOpt v.ekin} {showOpt v.vpot} {v.pos} {v.vel} {v.box} {v.temp}"
+
+def dump (m : Machine) : String :=
+  let refs := firstSeen (m.paths.flatMap (·.frames))
+  let syss := refs.map (fun r => (m.heap.look r).getD default)
+  let oos := firstSeen (syss.map (·.orderObj))
+  let ps := m.paths.map (fun p =>
+    s!"P {showOpt p.maxlen} {p.status} {showOpt p.generated} {showOpt p.pathNumber} {showOpt p.weights} " ++
+    s!"{p.weight} {p.timeOrigin} {showList (fun r => "r" ++ toString (idxIn refs r)) p.frames}")
+  let ss := syss.map (fun s => showVals s.v (idxIn oos s.orderObj))
+  String.intercalate " ; " (ps ++ ss)
+
+def showSideStart : Option Side → String
+  | none => "None" | some .L => "L" | some .R => "R" | some .U => "?"
+
+def showSideEnd : Option Side → String
+  | none => "None" | some .L => "L" | some .R => "R" | some .U => "None"
+
+def showErr : Err → String
+  | .assert => "err:assert" | .index => "err:index" | .value => "err:value" | .type => "err:type"
+
+def showVI : Except Err (Int × Nat) → String
+  | .ok (v, i) => s!"{v},{i}"
+  | .error e => showErr e
+
+def showCheck : Except Err Check → String
+  | .ok c =>
+    let cr := if c.cross.isEmpty then "-" else String.ofList (c.cross.map (fun b => if b then '1' else '0'))
+    s!"{showSideStart c.start},{showSideEnd c.end_},{if c.middle then "M" else "*"},{cr}"
+  | .error e => showErr e
+
+def handle (toks : List String) : String :=
+  match toks with
+  | "prog" :: rest =>
+    match parseOps rest [] with
+    | none => "bad-op"
+    | some ops =>
+      let m := Machine.init.run ops
+      String.intercalate "," m.log ++ " | " ++ dump m
+  | "cls" :: rest =>
+    match takeList parseInt? rest with
+    | some (intf, rest') =>
+      match takeList parseInt? rest' with
+      | some (ops, []) => s!"min={showVI (ordermin ops)} max={showVI (ordermax ops)} chk={showCheck (checkInterfaces ops intf)}"
+      | _ => "bad-op"
+    | none => "bad-op"
+  | "sp" :: l :: r :: rest =>
+    match parseInt? l, optInt? r, takeList parseInt? rest with
+    | some l, some r, some (ops, []) =>
+      match startPoint ops l r with
+      | .ok s => showSideStart (some s)
+      | .error e => showErr e
+    | _, _, _ => "bad-op"
+  | "ep" :: l :: r :: rest =>
+    match parseInt? l, optInt? r, takeList parseInt? rest with
+    | some l, some r, some (ops, []) =>
+      match endPoint ops l r with
+      | .ok s => showSideEnd (some s)
+      | .error e => showErr e
+    | _, _, _ => "bad-op"
+  | _ => "bad-op"
 
 def main : IO Unit := mainWith handle
